@@ -643,28 +643,13 @@ def rule_completion_semantics(ctx):
 ADMISSIBILITY_BASED = r"(^|[<\s])(utils::grounded_extension_computer::grounded_extension|aa::aa_framework::AAFramework::<T>::grounded_extension|solvers::(grounded_semantics_solver|complete_semantics_solver|preferred_semantics_solver|ideal_semantics_solver)::|utils::equivalency_computer::)"
 
 
-def _feasible(body, bb, env):
-    """can block bb execute when the bool parameters in env {param: bool} have those values?"""
-    for c in conditions(body, bb):
-        p = c.place
-        if c.is_discr or p["p"]:
-            continue
-        l = p["l"]
-        # a compiler temporary copying the parameter
-        if not (1 <= l <= body.n_args):
-            ds = body.defs.get(l, [])
-            if len(ds) == 1 and ds[0].si is not None and ds[0].node["k"] == "assign" and ds[0].node["rv"]["k"] == "use":
-                q = op_place(ds[0].node["rv"]["ops"][0])
-                if q is not None and not q["p"]:
-                    l = q["l"]
-        if l in env:
-            if (c.is_true() and env[l] is False) or (c.is_false() and env[l] is True):
-                return False
-    return True
+def _feasible(prog, body, bb, env):
+    """can block bb execute when the parameters in env {param: bool | ('variant', name)} have those values?"""
+    return bb not in shp.infeasible_blocks(prog, body, env)
 
 
 def _const_reach(prog, roots):
-    """call edges reachable from roots, following constant bool arguments into callees and
+    """call edges reachable from roots, following constant bool / enum-variant arguments into callees and
     pruning call sites that the callee's branches on those parameters make unreachable.
     returns (visited body ids, edges [(caller body, site, callee body)])"""
     seen = set()
@@ -682,27 +667,21 @@ def _const_reach(prog, roots):
         for s in b.sites():
             n = s.node
             if s.si is not None and n["k"] == "assign" and n["rv"]["k"] == "aggregate" and n["rv"]["agg"].get("kind") == "closure":
-                if _feasible(b, s.bb, env):
+                if _feasible(prog, b, s.bb, env):
                     clo = prog.by_target[b.target].get(n["rv"]["agg"].get("path"))
                     if clo is not None:
                         work.append((clo, ()))
         for s, t in prog.callees(b, include_closures=False, virtual_dispatch=True):
-            if not _feasible(b, s.bb, env):
+            if not _feasible(prog, b, s.bb, env):
                 continue
             edges.append((b, s, t))
             cenv = {}
             if t.kind != "closure":
                 for k, a in enumerate(s.node["args"]):
-                    kk = op_const(a)
-                    if kk is not None and "bool" in kk:
-                        cenv[k + 1] = kk["bool"]
-                    else:
-                        q = op_place(a)
-                        if q is not None and not q["p"]:
-                            for o in origins(b, a, transparent=()):
-                                if o.kind == "param" and not o.fields and o.data in env and len(origins(b, a, transparent=())) == 1:
-                                    cenv[k + 1] = env[o.data]
-            work.append((t, tuple(sorted(cenv.items()))))
+                    kv = shp._const_arg(prog, b, a, env)
+                    if kv is not None:
+                        cenv[k + 1] = kv
+            work.append((t, tuple(sorted(cenv.items(), key=str))))
     return visited, edges
 
 
@@ -816,7 +795,7 @@ def rule_every_listed_argument(ctx, kind=None):
         comp_loops = []
         loops = dict(b.loops())
         for s in b.calls():
-            if callee_decl(callee_of(s)) == "core::iter::traits::iterator::Iterator::next" and "ConnectedComponentsIterator" in b.local_ty(_root_local(b, s.node["args"][0])):
+            if callee_decl(callee_of(s)) == "core::iter::traits::iterator::Iterator::next" and _is_component_iterator(prog, b, s.node["args"][0]):
                 for h in b.in_loop(s.bb):
                     comp_loops.append((h, loops[h]))
             if callee_matches(callee_of(s), r"ConnectedComponentsComputer::next_connected_component$"):
@@ -844,8 +823,38 @@ def rule_every_listed_argument(ctx, kind=None):
                     # a flag written inside the loop
                     if any(dd.bb in blocks for dd in b.defs.get(root, [])):
                         bad = b.local_name(root)
+                # ... or by a predicate closure of the selection that reads such a flag (`.filter(|_| !located)`)
+                for fa in (callee_of(s) or {}).get("fn_args") or []:
+                    clo = prog.by_target[b.target].get(fa)
+                    if clo is None or clo.kind != "closure" or bad is not None:
+                        continue
+                    for u in clo.upvars:
+                        if (u.get("ty") or "").replace("&", "").replace("mut ", "").strip() != "bool":
+                            continue
+                        par, cap = tags._closure_capture_operand(prog, clo, u["field"])
+                        q = op_place(cap) if cap is not None else None
+                        if par is not b or q is None:
+                            continue
+                        root = _root_local(b, cap)
+                        from ..flow import resolve_copy
+
+                        root = resolve_copy(b, root)
+                        if b.local_name(root) is not None and any(dd.bb in blocks for dd in b.defs.get(root, [])):
+                            bad = b.local_name(root)
                 r.check(bad is None, "%s|selection@bb%d" % (b.id, s.bb), "selection-switched-off:%s" % bad, "the listed arguments of the component are selected in every iteration", "the selection of the listed arguments of the current component depends on the flag `%s` written in an earlier iteration of the component loop: listed arguments of later components are dropped from the query" % bad, s.loc())
     r.floor(n_a + n_b, 1, "accumulating list loops and per-component selections")
+
+
+def _is_component_iterator(prog, b, op):
+    """the iterator yields the connected components of a framework: by its type, or because it was made by iter_connected_components
+    (whatever iterator type that returns)"""
+    root = _root_local(b, op)
+    if "ConnectedComponentsIterator" in b.local_ty(root):
+        return True
+    for o in origins(b, {"l": root, "p": []}, transparent=("core::iter::traits::collect::IntoIterator::into_iter",)):
+        if o.kind == "call" and callee_matches(o.data, r"ConnectedComponentsComputer::iter_connected_components$"):
+            return True
+    return False
 
 
 def _root_local(b, op):
@@ -1000,3 +1009,69 @@ def _split_top(s):
     if cur.strip():
         out.append(cur)
     return out
+
+
+# ------------------------------------------------------------------------------------------
+# every connected component contributes to the assembled set
+
+
+_ACCUMULATE = ("alloc::vec::Vec::push", "alloc::vec::Vec::append", "core::iter::traits::collect::Extend::extend", "alloc::vec::Vec::extend_from_slice")
+
+
+def rule_every_component_contributes(ctx, kind=None):
+    prog = ctx.prog
+    scope = query_scope(prog, kind)
+    r = ctx.rule(
+        "every-component-contributes",
+        "a set assembled over the connected components (a single extension, a certificate) receives the part computed for the component in "
+        "every iteration of the component loop that goes on to the next component: an iteration may leave the function (no extension / "
+        "answer found) but may not skip its component - an extension of the framework is the union of one extension per component",
+    )
+    n = 0
+    for b in sorted(prog.lib_bodies(), key=lambda x: x.id):
+        fn = prog.enclosing_fn(b)
+        if b.kind == "closure" or not (fn.path.startswith("solvers::") or "<solvers::" in fn.path.split(" as ")[0]):
+            continue
+        if scope is not None and b.id not in scope:
+            continue
+        loops = dict(b.loops())
+        heads = set()
+        for s in b.calls():
+            if callee_decl(callee_of(s)) == "core::iter::traits::iterator::Iterator::next" and _is_component_iterator(prog, b, s.node["args"][0]):
+                heads |= set(b.in_loop(s.bb)[:1] if len(b.in_loop(s.bb)) == 1 else [min(b.in_loop(s.bb), key=lambda h: len(loops[h]))])
+            if callee_matches(callee_of(s), r"ConnectedComponentsComputer::next_connected_component$") and b.in_loop(s.bb):
+                heads.add(min(b.in_loop(s.bb), key=lambda h: len(loops[h])))
+        for head in sorted(heads):
+            blocks = loops[head]
+            # accumulations into a vector that outlives the loop (created outside it)
+            accs = []
+            for s in b.calls():
+                if s.bb not in blocks or callee_decl(callee_of(s)) not in _ACCUMULATE:
+                    continue
+                roots, _, _ = data_deps(b, s.node["args"][0], through_calls=False)
+                created_inside = any(d.bb in blocks and d.si is None and callee_decl(callee_of(d)) in ("alloc::vec::Vec::new", "alloc::vec::Vec::with_capacity") for l in roots for d in b.defs.get(l, []))
+                if not created_inside:
+                    accs.append(s)
+            if not accs:
+                continue
+            n += 1
+            # an inner loop whose body accumulates stands for the accumulation (zero iterations = an empty part)
+            stop = {a.bb for a in accs}
+            for h2, blks2 in loops.items():
+                if h2 != head and blks2 < blocks and any(a.bb in blks2 for a in accs):
+                    stop.add(h2)
+            # a path from the loop head back to it that avoids every accumulation
+            seen = set()
+            st = [sc for sc in b.succ[head] if sc in blocks]
+            skipped = False
+            while st:
+                x = st.pop()
+                if x in seen or x in stop or x not in blocks:
+                    continue
+                seen.add(x)
+                for sc in b.succ[x]:
+                    if sc == head:
+                        skipped = True
+                    st.append(sc)
+            r.check(not skipped, "%s|component-loop#%d" % (b.id, sorted(heads).index(head)), "component-skipped", "every iteration that continues adds the component's part (%d accumulation site(s))" % len(accs), "an iteration of the loop over the connected components can go on to the next component without adding anything for the current one: the assembled set misses a component", b.blocks[head]["term"].get("line") and "%s:%s" % (b.file, b.blocks[head]["term"].get("line")))
+    r.floor(n, 1, "component loops that assemble a set")
